@@ -297,7 +297,14 @@ func runSim(rng *rand.Rand, tier string, k int) Case {
 			cfgs = append(cfgs, genCfg(rng, "ns2", "exp"))
 			c.tags["two-namespaces-same-name"] = true
 		} else {
-			cfgs = append(cfgs, genCfg(rng, "ns1", "exq"))
+			g2 := genCfg(rng, "ns1", "exq")
+			if rng.Intn(2) == 0 {
+				// created from the other experiment's exported metadata: carries its reserved label and its labels
+				g2.aliasOf = "exp"
+				g2.labels = cfgs[0].labels
+				c.tags["experiment-carries-foreign-reserved-label"] = true
+			}
+			cfgs = append(cfgs, g2)
 			c.tags["two-experiments-one-namespace"] = true
 		}
 	}
@@ -334,6 +341,10 @@ func runSim(rng *rand.Rand, tier string, k int) Case {
 				t := ts[rng.Intn(len(ts))]
 				if !t.IsCompleted() {
 					c.outcome(g, t)
+				} else if rng.Intn(3) == 0 {
+					// metrics that arrive after the verdict
+					c.metricOp(t.Name, pick(c.rng, simValues))
+					c.tags["late-metrics-after-verdict"] = true
 				}
 			}
 		case op == 9:
